@@ -257,7 +257,7 @@ func (p *bprover) atomStr(a atom) string {
 	if c, ok := a.v.(*ssa.Const); ok {
 		s = c.String()
 	}
-	if pos := a.v.Pos(); pos.IsValid() {
+	if _, isMem := a.v.(*memVal); isMem || a.v.Pos().IsValid() {
 		if src := p.srcOf(a.v); src != "" {
 			s = src
 		}
@@ -276,6 +276,14 @@ func (p *bprover) atomStr(a atom) string {
 // srcOf gives a readable rendering of a value (best effort).
 func (p *bprover) srcOf(v ssa.Value) string {
 	switch x := v.(type) {
+	case *memVal:
+		if x.addr != nil {
+			if x.blk != nil {
+				return "*" + p.addrStr(x.addr) + "@join"
+			}
+			return "*" + p.addrStr(x.addr)
+		}
+		return "mem"
 	case *ssa.Parameter:
 		return x.Name()
 	case *ssa.FreeVar:
@@ -1466,10 +1474,14 @@ func (p *bprover) condFacts(cond ssa.Value, pol bool, out *[]bfact) {
 			}
 			return
 		case *types.Slice:
+			nn := blatom(atom{aNonNil, p.canonVal(other)})
 			if equalsNil {
 				l := p.lenOf(other)
 				nl, _ := l.scale(-1)
-				*out = append(*out, bfact{e: nl, why: "nil slice"})
+				n, _ := nn.scale(-1)
+				*out = append(*out, bfact{e: nl, why: "nil slice"}, bfact{e: n, why: "nil check"})
+			} else {
+				*out = append(*out, bfact{e: nn.addc(-1), why: "nil check"})
 			}
 		case *types.Interface:
 			if equalsNil {
@@ -1637,7 +1649,7 @@ func (p *bprover) prove(facts []bfact, goal blin, at *ssa.BasicBlock, splits int
 				rel[a] = true
 			}
 		}
-		for a := range rel {
+		for _, a := range p.sortedAtoms(rel) {
 			if atomDone[a] {
 				continue
 			}
@@ -1670,7 +1682,7 @@ func (p *bprover) prove(facts []bfact, goal blin, at *ssa.BasicBlock, splits int
 	}
 	// conditional facts: r = x % y with y >= 1 provable  =>  -(y-1) <= r <= y-1 (and r >= 0 when x >= 0)
 	added := false
-	for a := range rel {
+	for _, a := range p.sortedAtoms(rel) {
 		bo, ok := a.v.(*ssa.BinOp)
 		if !ok || a.k != aVal || bo.Op != token.REM {
 			continue
@@ -1738,7 +1750,7 @@ func (p *bprover) prove(facts []bfact, goal blin, at *ssa.BasicBlock, splits int
 			joins = append(joins, d)
 		}
 	}
-	for a := range rel {
+	for _, a := range p.sortedAtoms(rel) {
 		if pb, edges, ok := phiLike(a.v); ok && (pb == at || pb.Dominates(at)) {
 			if !isLoopMerge(pb, edges, a.v) {
 				addJoin(pb)
@@ -1910,7 +1922,7 @@ func (p *bprover) infeasible(cons []blin) bool {
 	key := func(r row) string {
 		var parts []string
 		for a, c := range r.t {
-			parts = append(parts, fmt.Sprintf("%p/%d:%d", a.v, a.k, c))
+			parts = append(parts, fmt.Sprintf("%s/%d:%d", fmtPtr(a.v), a.k, c))
 		}
 		sort.Strings(parts)
 		return strings.Join(parts, ",")
@@ -2026,7 +2038,16 @@ func (p *bprover) infeasible(cons []blin) bool {
 }
 
 func (p *bprover) atomOrder(a atom) string {
-	return fmt.Sprintf("%d/%s/%d", a.v.Pos(), a.v.Name(), a.k)
+	return fmt.Sprintf("%s/%d", fmtPtr(a.v), a.k)
+}
+
+func (p *bprover) sortedAtoms(m map[atom]bool) []atom {
+	res := make([]atom, 0, len(m))
+	for a := range m {
+		res = append(res, a)
+	}
+	sort.Slice(res, func(i, j int) bool { return p.atomOrder(res[i]) < p.atomOrder(res[j]) })
+	return res
 }
 
 func gcd64(a, b int64) int64 {
@@ -2049,7 +2070,8 @@ func (p *bprover) phiSteps(a atom, ph *ssa.Phi) (inits []blin, steps map[int]int
 		var l blin
 		switch a.k {
 		case aVal:
-			if !isIntType(ph.Type()) || !is64(ph.Type()) {
+			// any width: linOf yields phi + c only when the machine operation provably does not wrap
+			if !isIntType(ph.Type()) {
 				return nil, nil, false
 			}
 			l = p.linOf(e)
